@@ -38,7 +38,7 @@ def fixed_examples():
         ("concave", eg.concave_plaquette()), ("multi_graph", eg.multi_graph()),
         ("single7", eg.single_plaquette(7)), ("star", eg.star_lattice_sheared()[0]),
     ]
-    out += [("pinched_open", pinched_open()), ("two_site_torus", two_site_torus())]
+    out += [("pinched_open", pinched_open()), ("two_site_torus", two_site_torus()), ("brick_wall42", brick_wall(4, 2)), ("brick_wall44", brick_wall(4, 4))]
     out += [("spike_first", spike_first()), ("spike_first_torus", spike_first(torus=True))]
     r0 = np.random.default_rng(20260929)
     out += [("star_ring", star_ring(r0)), ("comb_ring", comb_ring(r0)), ("big_ring", big_ring(r0)),
@@ -251,6 +251,21 @@ def island(l, i=0):
     vs = set(int(v) for v in p.vertices); es = set(int(e) for e in p.edges)
     keep = np.array([(k in es) or not (int(a) in vs or int(b) in vs) for k, (a, b) in enumerate(l.edges.indices)])
     return Lattice(l.vertices.positions, l.edges.indices[keep], l.edges.crossing[keep])
+
+
+def brick_wall(nx, ny):
+    """the honeycomb lattice drawn as a brick wall on the torus (nx, ny even): every edge exactly horizontal or exactly vertical, vertex 0 has edges along +x, -x
+    (through the wall) and +y - the angular conventions at exactly axis-parallel directions"""
+    assert nx % 2 == 0 and ny % 2 == 0
+    idx = lambda i, j: (j % ny) * nx + (i % nx)
+    pos = np.array([[(i + 0.5) / nx, (j + 0.5) / ny] for j in range(ny) for i in range(nx)])
+    e, c = [], []
+    for j in range(ny):
+        for i in range(nx):
+            e.append([idx(i, j), idx(i + 1, j)]); c.append([1 if i == nx - 1 else 0, 0])
+            if (i + j) % 2 == 0:
+                e.append([idx(i, j), idx(i, j + 1)]); c.append([0, 1 if j == ny - 1 else 0])
+    return Lattice(pos, np.array(e), np.array(c))
 
 
 def voronoi(rng, N, shift=None):
